@@ -139,10 +139,11 @@ pub fn main(tier: Tier, replay: Option<Value>) -> i32 {
         let d = root.join("cannot");
         std::fs::create_dir_all(d.join("adir")).unwrap();
         std::fs::write(d.join("in.txt"), b"hello world ".repeat(2000)).unwrap();
-        let ok = run_cli(&cli, &d, &["compress", "in.txt", "good.zst"]);
+        let ok = run_cli(&cli, &d, &["compress", "in.txt", "good.zst", "--level", "1"]);
         let good = std::fs::read(d.join("good.zst")).unwrap_or_default();
         if ok.code != Some(0) || good.is_empty() {
-            run.machinery_error(format!("cannot set up the failure cases: compress of a small file gave {:?}", ok.code));
+            // a tool that cannot compress a small file at level 1 is broken in the first place
+            run.violation(Violation { identity: "compress_failed:level_1:small_file".into(), what: format!("compress of a 24 000-byte file at level 1 (needed to derive the truncated inputs): exit status {:?}, {} bytes written; stderr: {}", ok.code, good.len(), crate::ev::truncate(ok.stderr.trim(), 200)), replay: json!({"args": ["compress", "in.txt", "good.zst", "--level", "1"]}) });
         } else {
             let mut ops: Vec<(Vec<String>, String, Option<String>)> = vec![
                 (vec!["compress".into(), "adir".into(), "adir-out.zst".into()], "compress a directory (explicit output)".into(), Some("adir-out.zst".into())),
